@@ -5,6 +5,7 @@
  * generations are solver variables.
  *
  *  a / b   open an iterator on handle A / B        x / y   close the oldest open iterator of A / B
+ *  g / h   keyed lookup (mtbl_source_get) on A / B: may match nothing; a returned iterator is kept like a/b
  *  r / R   mtbl_fileset_reload / reload_now on A   q / Q   the same on B
  *  c       the setfile changes (new arbitrary subset of three names)
  *  t       time passes (clock advances by an arbitrary amount >= 0)
@@ -137,7 +138,7 @@ void mtbl_merger_add_source(struct mtbl_merger *mm, const struct mtbl_source *s)
 	V_ASSUME(m->n < NNAMES + 1);
 	m->src[m->n++] = (struct greader *)s;
 }
-struct mtbl_source { int is_merger; struct gmerger *m; mtbl_source_iter_func it; void *clos; };
+struct mtbl_source { int is_merger; struct gmerger *m; mtbl_source_iter_func it; mtbl_source_get_func get; void *clos; };
 static struct mtbl_source merger_src[8];
 static size_t n_merger_src;
 const struct mtbl_source *mtbl_merger_source(struct mtbl_merger *m)
@@ -150,10 +151,10 @@ const struct mtbl_source *mtbl_merger_source(struct mtbl_merger *m)
 struct mtbl_source *mtbl_source_init(mtbl_source_iter_func it, mtbl_source_get_func g, mtbl_source_get_prefix_func gp,
 				     mtbl_source_get_range_func gr, mtbl_source_free_func f, void *clos)
 {
-	(void)g; (void)gp; (void)gr; (void)f;
+	(void)gp; (void)gr; (void)f;
 	struct mtbl_source *s = calloc(1, sizeof(*s));
 	V_ASSUME(s);
-	s->it = it; s->clos = clos;
+	s->it = it; s->get = g; s->clos = clos;
 	return s;
 }
 void mtbl_source_destroy(struct mtbl_source **s) { if (*s) { free(*s); *s = NULL; } }
@@ -200,7 +201,16 @@ void mtbl_iter_destroy(struct mtbl_iter **it)
 mtbl_res mtbl_iter_next(struct mtbl_iter *it, const uint8_t **k, size_t *kl, const uint8_t **v, size_t *vl)
 { (void)it; (void)k; (void)kl; (void)v; (void)vl; return mtbl_res_failure; }
 mtbl_res mtbl_iter_seek(struct mtbl_iter *it, const uint8_t *k, size_t kl) { (void)it; (void)k; (void)kl; return mtbl_res_success; }
-struct mtbl_iter *mtbl_source_get(const struct mtbl_source *s, const uint8_t *k, size_t kl) { (void)k; (void)kl; return mtbl_source_iter(s); }
+/* a keyed lookup on a merger may match nothing: then the merger hands back no iterator at all */
+struct mtbl_iter *mtbl_source_get(const struct mtbl_source *s, const uint8_t *k, size_t kl)
+{
+	(void)k; (void)kl;
+	if (s->is_merger && vn_bool())
+		return NULL;
+	if (!s->is_merger)
+		return s->get(s->clos, k, kl);
+	return mtbl_source_iter(s);
+}
 struct mtbl_iter *mtbl_source_get_prefix(const struct mtbl_source *s, const uint8_t *k, size_t kl) { (void)k; (void)kl; return mtbl_source_iter(s); }
 struct mtbl_iter *mtbl_source_get_range(const struct mtbl_source *s, const uint8_t *k0, size_t l0, const uint8_t *k1, size_t l1)
 { (void)k0; (void)l0; (void)k1; (void)l1; return mtbl_source_iter(s); }
@@ -227,7 +237,7 @@ void h_fileset(void)
 	int reload_now_pending = 0;		/* reload_now was asked while iterators were open */
 	for (size_t i = 0; i + 1 < sizeof(ops); i++) {
 		char op = ops[i];
-		struct mtbl_fileset *H = (op == 'a' || op == 'r' || op == 'R' || op == 'x') ? A : B;
+		struct mtbl_fileset *H = (op == 'a' || op == 'g' || op == 'r' || op == 'R' || op == 'x') ? A : B;
 		int eff_before = n_effective_reloads, calls_before = n_reload_calls, iters_before = open_iters_total;
 		switch (op) {
 		case 'a': case 'b': {
@@ -250,8 +260,18 @@ void h_fileset(void)
 			if (op == 'a') { V_ASSUME(nia < 3); ia[nia++] = it; } else { V_ASSUME(nib < 3); ib[nib++] = it; }
 			break;
 		}
-		case 'x': V_ASSUME(cia < nia); mtbl_iter_destroy(&ia[cia++]); break;
-		case 'y': V_ASSUME(cib < nib); mtbl_iter_destroy(&ib[cib++]); break;
+		case 'g': case 'h': {
+			V_ASSUME(H != NULL);
+			struct mtbl_iter *it = mtbl_source_get(mtbl_fileset_source(H), (const uint8_t *)"k", 1);
+			/* whether or not something matched, the caller gets an iterator object it can destroy;
+			 * keep it like any other */
+			if (it != NULL) {
+				if (op == 'g') { V_ASSUME(nia < 3); ia[nia++] = it; } else { V_ASSUME(nib < 3); ib[nib++] = it; }
+			}
+			break;
+		}
+		case 'x': if (cia < nia) mtbl_iter_destroy(&ia[cia++]); break;
+		case 'y': if (cib < nib) mtbl_iter_destroy(&ib[cib++]); break;
 		case 'r': case 'q': V_ASSUME(H != NULL); mtbl_fileset_reload(H); break;
 		case 'R': case 'Q':
 			V_ASSUME(H != NULL);
